@@ -27,6 +27,27 @@ TEXT = {
  "C19": ("A fixed core of the harnesses above re-decided under all 8 feature sets x debug-assertions {on, off} (quick: default + all features, both profiles), Storage17 under 32_components, wraparound instead of panic under wrapping_version; kernels re-decided on the MIR dumped per configuration.", "§4 C19"),
 }
 
+# round 2 additions (DESIGN §12), appended to the level text
+ADD = {
+ "C01": " Round 2: a bounded public-API history (3 symbolic operations, every issued handle probed after every step, final state satisfies Inv) and the destroy step at an arbitrary capacity field in N..=2^24.",
+ "C02": " Round 2: reads in a clone, an over-aligned (align 32) column through growth, destroy with debug assertions off.",
+ "C04": " Round 2: clone_from onto an arbitrary non-fresh target (old values dropped once, source values cloned once), growth of an over-aligned column.",
+ "C05": " Round 2: is_cfg_enabled for stacked #[cfg] attributes (MIR), several anonymous OneOf filters in one query, twin programs with build-dependent predicates.",
+ "C06": " Round 2: iteration after a destroy with debug assertions off and after a destroy that panicked at the counter boundary.",
+ "C07": " Round 2: the pass run on a clone of an arbitrary state; a public-API harness with no assumption on the visiting order.",
+ "C08": " Round 2: bounded public-API history (no handle issued twice), destroy at an arbitrary capacity field (no generation forgotten whatever the capacity), the overflow panic with debug assertions off.",
+ "C09": " Round 2: direct handles in a clone / after clone_from.",
+ "C10": " Round 2: clone_from (target inspected at every Clone::clone call) and a component's Drop running inside World::destroy / ecs_iter_destroy! as panic points.",
+ "C11": " Round 2: ecs_find_borrow! keyed by direct handles as outer and inner access.",
+ "C12": " Round 2: capacity independence — destroy and create_within_capacity with the capacity FIELD symbolic in N..=2^24 over a real allocation of N cells; a clone can be refilled to exactly capacity; bounded public-API history.",
+ "C13": " Round 2: clone_from onto an arbitrary target state of the same capacity (world and archetype level).",
+ "C14": " Round 2: the conversions kernel also under wrapping_version.",
+ "C15": " Round 2: two stacked cfg attributes per item (MIR), twin declaration with stacked attributes / disabled items carrying explicit ids.",
+ "C16": " Round 2: stacked attributes on declaration items and query parameters (MIR of evaluate_cfgs and is_cfg_enabled), twin programs with build-dependent predicates before constant ones.",
+ "C17": " Round 2: provided Iterator methods (nth, skip, count, last, for_each) of the world-level iterators; a world declaring all 256 archetypes (u8 cursor boundary).",
+ "C19": " Round 2: the 256-archetype world under events (overflow checks at the u8 cursor boundary).",
+}
+
 NOTE = {
  "C05": "Data level: what rustc does with the generated tokens (that an empty match set / ambiguity surfaces as a compile error, closure syntax parsing) is checked only on validation witnesses; container semantics (Vec/HashMap/String) are modelled — list in evidence.",
  "C15": "Data level + real-macro validation witnesses; that Err becomes a compile error is observed on witnesses, not proven for all declarations.",
@@ -40,6 +61,7 @@ TECH_EXTRA = {
  "C10": "; auxiliary: MIR unwind-edge fact on Storage::clone and native catch_unwind oracles for behaviour AFTER unwinding (Kani cannot unwind)",
  "C05": "; auxiliary real-program corpora through the real macros (E1 corpus under Kani, negative corpus of programs that must not compile)",
  "C16": "; auxiliary twin programs (decorated vs erased) through the real cfg macro chain",
+ "C15": "; auxiliary twin declarations (decorated vs erased) through the real macros",
  "C12": "; admission-kernel counterexamples and boundary witnesses replayed natively through the public API",
 }
 
@@ -72,6 +94,7 @@ def main():
     }
     for pid in claimed:
         text, ref = TEXT[pid]
+        text = text + ADD.get(pid, "")
         ent = registry.PROPERTIES[pid]
         engines = []
         if ent["jobs"]():
